@@ -12,6 +12,7 @@ U3 = "u3_resultset"
 U4 = "u4_params"
 U4S = "u4_params_safety"
 U5 = "u5_hub"
+U6 = "u6_text"
 
 PROPS = {
     "C01": {
@@ -44,7 +45,7 @@ PROPS = {
     "C06": {
         "title": "Text-protocol result values arrive unchanged",
         "kani": [("k6_deps", ["k6_write_lenenc_int", "k6_write_lenenc_str"]), ("k4_values", ["k4_bytes_text", "k4_option_text", "k4_forwarders", "k4_forwarders_str"])],
-        "verus": [(U3, ["U3.write_col", "U3.end_row", "C07.row"])],
+        "verus": [(U3, ["U3.write_col", "U3.end_row", "U3.write_row", "C07.row"]), (U6, [])],
     },
     "C07": {
         "title": "Binary-protocol rows arrive unchanged, with an exact NULL bitmap",
